@@ -117,7 +117,7 @@ def _svc_judge(spec, out, ctx):
     kind = spec["cfg"]["kind"]
     rec = spec["recurring"]
     for when in ("first", "last"):
-        for k in range(0, len(rec), 2):
+        for k in range(0, len(rec) if out[when] else 0, 2):
             teams = rec[k]["teams"]
             n = len(teams)
             rk, dr = out[when][k], out[when][k + 1]
@@ -138,18 +138,30 @@ def _svc_judge(spec, out, ctx):
                 raise Violation(f"service:{when}:complement", f"{where}: sum of predict_rank probabilities {sum(probs)!r} + predict_draw {dr!r} != 1")
 
 
+def _svc_judge_all(spec, out, ctx):
+    _svc_judge(spec, out, ctx)
+    # a team seen at the very start next to never-seen teams in one call: same relations
+    rec2 = []
+    o2 = []
+    for m in out.get("mixed", []):
+        rec2 += [{"op": "predict_rank", "teams": m["teams"]}, {"op": "predict_draw", "teams": m["teams"]}]
+        o2 += [m["results"]["predict_rank"], m["results"]["predict_draw"]]
+    if rec2:
+        _svc_judge(dict(spec, recurring=rec2), {"first": [], "last": o2, "fillers": out["fillers"]}, ctx)
+
+
 def _svc(i):
     from vf import service
 
     if not hasattr(_svc, "fns"):
-        _svc.fns = service.make_clause_functions(_svc_recurring, _svc_judge)
+        _svc.fns = service.make_clause_functions(_svc_recurring, _svc_judge_all)
     return _svc.fns[i]
 
 
 PROPERTY = Property(
     pid="C11",
     clauses=[
-        Clause(name="long-running-service", kind="custom", custom=lambda *a: _svc(0)(*a), check=lambda *a: _svc(1)(*a), quick=16, thorough=64, shards_quick=16, shards_thorough=16,
+        Clause(name="long-running-service", kind="custom", custom=lambda *a: _svc(0)(*a), check=lambda *a: _svc(1)(*a), quick=48, thorough=128, shards_quick=16, shards_thorough=16,
                rule="one fresh child interpreter and ONE long-lived model per case: predict_rank and predict_draw on 11 recurring line-ups first, then 9 000 (quick) / "
                     "70 000 (thorough) other calls with ever new line-ups, then the recurring calls again: ranks consistent with probabilities, complement identity "
                     "with predict_draw (>= 3 teams) - early and late; non-trivial = at least 4 200 calls in between"),Clause(name="rank-consistency", strategy=cases(), check=check_c11, quick=8000, thorough=150000,
